@@ -65,6 +65,10 @@ func hostVariants(s sim.Source, host string, other string) (string, string) {
 			// not a host:port form: several colons outside brackets leave the Host as it is (it matches nothing)
 			return host + sim.Pick(s, "colons", []string{":80:90", "::1", ".:1:2"}), "several-colons"
 		}
+		if s.Intn("stripstwice", 2) == 1 {
+			// forms from which a second stripping would remove more: only ONE dot, one port, one pair of brackets go
+			return sim.Pick(s, "twice", []string{host + "..", host + "..:8080", "[" + host + ":8080]:80"}), "strips-twice"
+		}
 		return other, "other-host"
 	default:
 		return sim.Pick(s, "literal", []string{"[::1]:80", "127.0.0.1", "", host + ":", ":8080", ".", ".:443"}), "literal"
